@@ -255,7 +255,9 @@ Fixpoint scan_id (fuel : nat) (sess : amap (N * N)) (n : N) : option N :=
 
 Inductive sop :=
 | SCreate (h mac : N)
-| SRemove (id : N).
+| SRemove (id : N)
+| SSetNext (n : N).     (* the counter stands at n (verif accessor VerifSetNextID): where it is when it comes round
+                           again, independently of which ids are still in use; n = 0 is never a counter value *)
 
 Definition s_snap (st : sst) : list snap :=
   let fw0 := map (fun x => (fst (fst x), snd (fst x))) (s_live st) in
@@ -304,6 +306,11 @@ Definition s_step (st : sst) (o : sop) : sst * obs * list N :=
                    s_live := filter (fun x => negb (snd (fst x) =? id)) (s_live st);
                    s_pids := s_pids st; s_pmacs := s_pmacs st |} RNone []
       end
+  | SSetNext n =>
+      if (1 <=? n) && (n <=? 65535)
+      then s_out {| s_sess := s_sess st; s_mac := s_mac st; s_next := n; s_live := s_live st;
+                    s_pids := s_pids st; s_pmacs := s_pmacs st |} RNone []
+      else s_out st (RErr EOther) []
   end.
 
 (* ------------------------------------------------------------------ circuit-id keys *)
